@@ -449,55 +449,62 @@ func fixedC14(r *Rec, tier string, shard, nshards int) []*Case {
 					{Kind: "AllowAttrs", Attrs: []string{"href"}, Scope: "els", Names: []string{"a"}, ValRe: -1}, {Kind: "AllowElements", Names: []string{"b"}, ValRe: -1},
 					{Kind: "AllowRelativeURLs", B: true, ValRe: -1}, {Kind: "AddSpaceWhenStrippingTag", B: true, ValRe: -1}}}
 				pol := Build(spec, nil)
-				alphabet := []string{"<" + name + ">", "</" + name + ">", "<" + name + ` class="c">`, "<a>", "</a>", `<a href="x">`, "<b>", "</b>", "</q>", "<object>", "</object>"}
-				idx := make([]int, maxLen)
-				var batch []string
-				flush := func() {
-					if len(batch) == 0 {
-						return
-					}
-					cur := ""
-					b := batch
-					batch = nil
-					// one watchdog per batch of tiny inputs (a goroutine and a timer per input would cost
-					// more than the calls themselves); cur names the input a panic or a stall belongs to
-					res := timedCall(soupBudget, func() string {
-						for _, in := range b {
-							cur = in
-							pol.Sanitize(in)
-						}
-						return ""
-					})
-					evals += len(b)
-					if res.panicked != nil {
-						hardFail(&Case{Kind: "soup", Spec: spec, Input: BStr(cur)}, r, fmt.Sprintf("C14: Sanitize panics on %s: %v", q(cur), res.panicked))
-					}
-					if res.timedOut {
-						hardFail(&Case{Kind: "soup", Spec: spec, Input: BStr(cur)}, r, fmt.Sprintf("C14: Sanitize does not return within %v on (a batch of tag sequences at) %s", soupBudget, q(cur)))
-					}
+				alphabets := [][]string{
+					{"<" + name + ">", "</" + name + ">", "<" + name + ` class="c">`, "<a>", "</a>", `<a href="x">`, "<b>", "</b>", "</q>", "<object>", "</object>"},
+					// fewer letters, two tags longer
+					{"<" + name + ">", "</" + name + ">", "<" + name + ` class="c">`, "<a>", "</a>", "</b>"},
 				}
-				var rec func(pos int)
-				rec = func(pos int) {
-					if pos > 0 {
-						var sb strings.Builder
-						for _, i := range idx[:pos] {
-							sb.WriteString(alphabet[i])
+				for ai, alphabet := range alphabets {
+					maxLen := maxLen + 2*ai
+					idx := make([]int, maxLen)
+					var batch []string
+					flush := func() {
+						if len(batch) == 0 {
+							return
 						}
-						batch = append(batch, sb.String())
-						if len(batch) >= 4000 {
-							flush()
+						cur := ""
+						b := batch
+						batch = nil
+						// one watchdog per batch of tiny inputs (a goroutine and a timer per input would cost
+						// more than the calls themselves); cur names the input a panic or a stall belongs to
+						res := timedCall(soupBudget, func() string {
+							for _, in := range b {
+								cur = in
+								pol.Sanitize(in)
+							}
+							return ""
+						})
+						evals += len(b)
+						if res.panicked != nil {
+							hardFail(&Case{Kind: "soup", Spec: spec, Input: BStr(cur)}, r, fmt.Sprintf("C14: Sanitize panics on %s: %v", q(cur), res.panicked))
+						}
+						if res.timedOut {
+							hardFail(&Case{Kind: "soup", Spec: spec, Input: BStr(cur)}, r, fmt.Sprintf("C14: Sanitize does not return within %v on (a batch of tag sequences at) %s", soupBudget, q(cur)))
 						}
 					}
-					if pos == maxLen {
-						return
+					var rec func(pos int)
+					rec = func(pos int) {
+						if pos > 0 {
+							var sb strings.Builder
+							for _, i := range idx[:pos] {
+								sb.WriteString(alphabet[i])
+							}
+							batch = append(batch, sb.String())
+							if len(batch) >= 4000 {
+								flush()
+							}
+						}
+						if pos == maxLen {
+							return
+						}
+						for i := range alphabet {
+							idx[pos] = i
+							rec(pos + 1)
+						}
 					}
-					for i := range alphabet {
-						idx[pos] = i
-						rec(pos + 1)
-					}
+					rec(0)
+					flush()
 				}
-				rec(0)
-				flush()
 			}
 			r.Class("exhaustive_tag_sequences")
 		}
